@@ -172,6 +172,33 @@ def guards_at(cfg: CFG, b: int) -> List[Tuple[ast.expr, bool]]:
         for lab, pol in (("T", True), ("F", False)):
             if edge_dominates(cfg, t, lab, b):
                 out.extend(facts_of(node.ast, pol))
+    return _close(out)
+
+
+def _close(fs: List[Tuple[ast.expr, bool]]) -> List[Tuple[ast.expr, bool]]:
+    """Unit resolution: not (A and B) with A gives not B; (A or B) with not A gives B.  Atoms compared by norm()."""
+    out = list(fs)
+    changed = True
+    while changed:
+        changed = False
+        known = {(norm(a), pol) for a, pol in out}
+        for a, pol in list(out):
+            if isinstance(a, ast.BoolOp):
+                is_and = isinstance(a.op, ast.And)
+                if (is_and and pol is False) or ((not is_and) and pol is True):
+                    want = True if is_and else False  # value that does not decide the operand
+                    undecided = []
+                    for v in a.values:
+                        vf = facts_of(v, want)
+                        if all((norm(x), p) in known for x, p in vf):
+                            continue  # this operand is known not to be the deciding one
+                        undecided.append(v)
+                    if len(undecided) == 1:
+                        for x, p in facts_of(undecided[0], not want):
+                            if (norm(x), p) not in known:
+                                out.append((x, p))
+                                known.add((norm(x), p))
+                                changed = True
     return out
 
 
